@@ -67,6 +67,7 @@ class Recorder:
         self.handoff_after_root: list[str] = []
         self.callbacks: dict[str, list[Callable]] = {}
         self.env_counter = 0
+        self.cur_job: Optional[tuple] = None
 
     def rec(self, job) -> JobRec:
         r = self.jobs.get(job.id)
@@ -177,8 +178,36 @@ def recording(w: World, rec: Recorder):
             r.exec_count += 1
             for cb in rec.callbacks.get("exec_main", []):
                 cb(self, job)
-            return orig(self, job, eval_args)
+            prev = rec.cur_job
+            rec.cur_job = (job.id, "exec")
+            try:
+                return orig(self, job, eval_args)
+            finally:
+                rec.cur_job = prev
         return _exec_job_main_thread
+
+    def mk_main_thread(kind):
+        def maker(orig):
+            def wrapper(self, job, *a, **k):
+                prev = rec.cur_job
+                rec.cur_job = (job.id if job is not None else None, kind)
+                try:
+                    return orig(self, job, *a, **k)
+                finally:
+                    rec.cur_job = prev
+            return wrapper
+        return maker
+
+    def mk_report(kind):
+        def maker(orig):
+            def wrapper(self, job, *a, **k):
+                if job is not None:
+                    w.event("report-" + kind, job.id[:8])
+                    for cb in rec.callbacks.get("report", []):
+                        cb(self, job, kind)
+                return orig(self, job, *a, **k)
+            return wrapper
+        return maker
 
     def current_job_for_limits(sched) -> Optional[str]:
         return getattr(sched, "_verif_cur_job", None)
@@ -186,6 +215,8 @@ def recording(w: World, rec: Recorder):
     def mk_consume(orig):
         def _consume_resources(self, job_limits):
             w.event("consume", tuple(sorted(job_limits.items())))
+            if rec.cur_job and rec.cur_job[0] in rec.jobs:
+                rec.jobs[rec.cur_job[0]].consumed.append((dict(job_limits), rec.cur_job[1]))
             for cb in rec.callbacks.get("consume", []):
                 cb(self, dict(job_limits))
             return orig(self, job_limits)
@@ -194,6 +225,8 @@ def recording(w: World, rec: Recorder):
     def mk_release(orig):
         def _release_resources(self, job_limits):
             w.event("release", tuple(sorted(job_limits.items())))
+            if rec.cur_job and rec.cur_job[0] in rec.jobs:
+                rec.jobs[rec.cur_job[0]].released.append((dict(job_limits), rec.cur_job[1]))
             out = orig(self, job_limits)
             for cb in rec.callbacks.get("release", []):
                 cb(self, dict(job_limits))
@@ -215,6 +248,10 @@ def recording(w: World, rec: Recorder):
         wrap(rs.Job, "reject", mk_reject)
         wrap(rlocal.LocalExecutor, "_submit", mk_submit)
         wrap(rs.Scheduler, "_exec_job_main_thread", mk_exec_main)
+        wrap(rs.Scheduler, "_done_job_main_thread", mk_main_thread("done"))
+        wrap(rs.Scheduler, "_reject_job_main_thread", mk_main_thread("reject"))
+        wrap(rs.Scheduler, "done_job", mk_report("done"))
+        wrap(rs.Scheduler, "reject_job", mk_report("reject"))
         wrap(rs.Scheduler, "_consume_resources", mk_consume)
         wrap(rs.Scheduler, "_release_resources", mk_release)
         wrap(rs.Scheduler, "_finalize_job", mk_finalize)
@@ -309,10 +346,10 @@ def simulate(ch: Choices, prog: Program, *, db_path: Optional[str] = None,
     from . import proglib
 
     own_session = session is None
-    w = World(ch, step_cap=step_cap, policy=policy)
-    rec = Recorder(w)
     if db_path is None:
         db_path = schedsim.fresh_db("run.db")
+    w = World(ch, step_cap=step_cap, policy=policy, ns=schedsim.next_generation(db_path))
+    rec = Recorder(w)
     sess = session or ProgramSession(prog)
     backend = None
     try:
